@@ -63,16 +63,16 @@ prop("C06", ["CAS-1", "CAS-3", "CAS-5", "CAS-6"],
      "the reader consumes exactly the frames the writer produces: header signature, each header field read at the offset the writer stores it and delivered to the matching CoCoFile field, "
      "name length, where block search resumes, data blocks stepped over by exactly 4 + len + 2 with payload copied from offset 4, EOF frame length; writers never modify the data they are given.",
      "equality of data for all contents and lengths; tolerance of arbitrary foreign tapes.")
-prop("C07", ["DSK-1", "DSK-2", "DSK-3", "DSK-4", "DSK-12", "CAS-3"],
+prop("C07", ["DSK-1", "DSK-2", "DSK-3", "DSK-4", "DSK-5", "DSK-12", "CAS-3"],
      "geometry constants and the granule->offset map for all 68 granules; directory entry layout of writer and reader against the Disk BASIC layout with bounded field writes; preamble/postamble "
      "read/write siblings agree on flags, offsets and lengths and on which file kind gets which; FAT links, terminator C0+sectors, reader masks; stream length computed identically by the three "
      "length functions (with and without trailer), sector and granule counts consistent for every length.",
      "equality of contents for all lengths, arbitrary foreign images; granule-bounded placement of the trailer (recorded finding DSK-5 is not re-derived statically).")
-prop("C08", ["DSK-1", "DSK-2", "DSK-4", "DSK-6", "DSK-7", "DSK-12"],
+prop("C08", ["DSK-1", "DSK-2", "DSK-4", "DSK-5", "DSK-6", "DSK-7", "DSK-12"],
      "image size and track-17 offsets; FAT encoding written and read (links, last-granule marker with 1-9 sectors, free marker FF only); blanking confined to FAT bytes 68-255; allocation only "
      "from granules whose FAT byte is FF, marked before the next search; fill order a permutation of 0..67; implied length (sectors, last-sector bytes) equals the stream length by construction.",
      "chain disjointness and length arithmetic for concrete file sequences.")
-prop("C09", ["VF-1", "VF-4", "VF-6", "DSK-7", "DSK-6", "CAS-4", "CAS-3", "DET-2"],
+prop("C09", ["VF-1", "VF-4", "VF-6", "DSK-5", "DSK-7", "DSK-6", "CAS-4", "CAS-3", "DET-2"],
      "append = list the existing image, append the new file at the end, rebuild the whole list in order into a fresh container; cassette writers only append to the buffer; disk allocation only takes "
      "free granules and free directory slots; a fresh DiskFile owns its own buffer (no shared class-level image); sniffing order disk, cassette, binary with matching kinds.",
      "the property over histories of interleaved add/save/re-open; kind recognition by content (recorded finding VF-6).")
